@@ -241,9 +241,22 @@ func newUniverse(salt string, base uint64, comms, aggComms []uint64, proVer, agg
 	return u, nil
 }
 
-func (u *universe) buildSlot(slot uint64) error {
+// allKinds is the default content of a slot.
+var allKinds = []kind{kAtt, kPro, kAgg, kCon}
+
+func (u *universe) buildSlot(slot uint64, kinds ...kind) error {
+	if len(kinds) == 0 {
+		kinds = allKinds
+	}
+	want := map[kind]bool{}
+	for _, k := range kinds {
+		want[k] = true
+	}
 	// attestation data
 	for _, v := range attVariants {
+		if !want[kAtt] {
+			break
+		}
 		d := eth2p0.AttestationData{
 			Slot: eth2p0.Slot(slot), Index: 0, BeaconBlockRoot: u.h("head", slot, "canon"),
 			Source: &eth2p0.Checkpoint{Epoch: eth2p0.Epoch(slot/32) + 1, Root: u.h("src", slot, "canon")},
@@ -270,6 +283,9 @@ func (u *universe) buildSlot(slot uint64) error {
 	}
 	// proposals
 	for _, v := range proVariants {
+		if !want[kPro] {
+			break
+		}
 		var p *eth2api.VersionedProposal
 		state := eth2p0.Root(u.h("state", slot, v))
 		switch u.proVer {
@@ -308,7 +324,7 @@ func (u *universe) buildSlot(slot uint64) error {
 		u.proByRoot[root] = id
 	}
 	// aggregates
-	for dataIdx := 0; dataIdx < 2; dataIdx++ {
+	for dataIdx := 0; dataIdx < 2 && want[kAgg]; dataIdx++ {
 		for _, comm := range u.aggComms {
 			for bits := 0; bits <= aggBitsPX; bits++ {
 				data := &eth2p0.AttestationData{
@@ -354,7 +370,7 @@ func (u *universe) buildSlot(slot uint64) error {
 		}
 	}
 	// sync contributions
-	for sub := uint64(0); sub < 2; sub++ {
+	for sub := uint64(0); sub < 2 && want[kCon]; sub++ {
 		for rootIdx := 0; rootIdx < 2; rootIdx++ {
 			blockRoot := eth2p0.Root(u.h("conroot", slot, rootIdx))
 			for _, v := range conVariants {
